@@ -1094,6 +1094,16 @@ func (a *Authenticator) loadSigningKey(keyID string, config *SecurityConfig) ([]
 
 // validateTokenTiming validates the expiration and issued-at times of a JWT
 // This follows HTCondor's token timing validation in condor_auth_passwd.cpp
+// unixFromFloat converts a JSON number of seconds to int64. A value no int64 holds is not a
+// timestamp: Go's conversion of it is implementation-defined (on amd64 1e300 becomes
+// MinInt64, which made a token that is "not valid before" the far future look long valid).
+func unixFromFloat(v float64) (int64, bool) {
+	if v != v || v >= 9223372036854775808.0 || v < -9223372036854775808.0 {
+		return 0, false
+	}
+	return int64(v), true
+}
+
 func (a *Authenticator) validateTokenTiming(claims map[string]interface{}, config *SecurityConfig) error {
 	now := time.Now().Unix()
 
@@ -1102,7 +1112,11 @@ func (a *Authenticator) validateTokenTiming(claims map[string]interface{}, confi
 		var expTime int64
 		switch v := exp.(type) {
 		case float64:
-			expTime = int64(v)
+			t, ok := unixFromFloat(v)
+			if !ok {
+				return fmt.Errorf("JWT exp claim is not a valid timestamp")
+			}
+			expTime = t
 		case int64:
 			expTime = v
 		case int:
@@ -1132,7 +1146,11 @@ func (a *Authenticator) validateTokenTiming(claims map[string]interface{}, confi
 		var iatTime int64
 		switch v := iat.(type) {
 		case float64:
-			iatTime = int64(v)
+			t, ok := unixFromFloat(v)
+			if !ok {
+				return fmt.Errorf("JWT iat claim is not a valid timestamp")
+			}
+			iatTime = t
 		case int64:
 			iatTime = v
 		case int:
@@ -1155,7 +1173,11 @@ func (a *Authenticator) validateTokenTiming(claims map[string]interface{}, confi
 		var nbfTime int64
 		switch v := nbf.(type) {
 		case float64:
-			nbfTime = int64(v)
+			t, ok := unixFromFloat(v)
+			if !ok {
+				return fmt.Errorf("JWT nbf claim is not a valid timestamp")
+			}
+			nbfTime = t
 		case int64:
 			nbfTime = v
 		case int:
